@@ -13,8 +13,11 @@ LEVEL = ('decides properties of the code that only runs under non-default option
          'resolver reads a decision back with the arity it was written with (J5). '
          'is_nogood_propagating answers true whenever the nogood is the reason of the trail entry of '
          "its propagated predicate (J1 TABLE); the no-learning resolver's flipped decision carries a "
-         'reason covering every earlier level (J7). Does not decide equality of answers across option '
-         'values, nor termination under forget-everything settings')
+         'reason covering every earlier level (J7). the free list of nogood ids is only pushed and '
+         'popped (J1), the reason of a flipped decision takes every reason-less entry of each earlier '
+         "level (J7), the semantic minimiser's steps and emission are exact (J8/J9), a permanent "
+         'nogood is stored in its preprocessed form (J10). Does not decide equality of answers across '
+         'option values, nor termination under forget-everything settings')
 TECHNIQUE = "static analysis: dominance / who-may-call / call-graph closure / arity agreement over rustc MIR"
 
 
